@@ -19,6 +19,7 @@ Race case (JSON):
   queue_size   None | int      downsample  None | int
   delay_overrides  None | {message type name: index into DELAYS}  fixed delay for every message of that type
   preempt_add  None | [k, ...]  the worker's actor thread ships samples while its executor thread builds every k-th Sample inside Sampler.add()
+  api_keys     bool: client option create_api_key_per_client (the driver creates one key per client through its synchronous client)
   host_alias   None | [machine index per entry of hosts] (a load driver host listed twice)
   preempt      None | list of indexes into PREEMPT, consumed one per pre-emption point (Future.done() in a handler), cycled
   quiet        bool
@@ -120,7 +121,8 @@ def race_config(case, tmp_root="/tmp/verif-sim-race"):
     A = config.Scope.application
     hosts = opts.TargetHosts("127.0.0.1:9200")
     cfg.add(A, "client", "hosts", hosts)
-    cfg.add(A, "client", "options", opts.ClientOptions("timeout:60,static_responses:sim", target_hosts=hosts))
+    options = "timeout:60,static_responses:sim" + (",create_api_key_per_client:true" if case.get("api_keys") else "")
+    cfg.add(A, "client", "options", opts.ClientOptions(options, target_hosts=hosts))
     cfg.add(A, "mechanic", "distribution.version", "8.0.0")
     cfg.add(A, "mechanic", "distribution.flavor", "default")
     cfg.add(A, "mechanic", "skip.rest.api.check", True)
